@@ -121,6 +121,17 @@ func addStats(w *WorkerOut, o *RunOut) {
 	if o.Stats.AtomicOps > 0 {
 		c["atomic_scheduling_points"] += o.Stats.AtomicOps
 	}
+	if o.Stats.Selects > 0 {
+		c["select_statements_executed_deterministically"] += o.Stats.Selects
+		c["select_statements_that_blocked"] += o.Stats.SelectBlocked
+	}
+	if o.Stats.TimerResets+o.Stats.TimerStops > 0 {
+		c["afterfunc_timer_resets"] += o.Stats.TimerResets
+		c["afterfunc_timer_stops"] += o.Stats.TimerStops
+	}
+	if o.Stats.TimerUnseen > 0 {
+		c["afterfunc_timer_firings_after_unseen_rearm"] += o.Stats.TimerUnseen
+	}
 	if o.Leaked > 0 {
 		c["leaked_tasks"] += o.Leaked
 	}
